@@ -194,14 +194,14 @@ CONC = {
             'job status is one of the five constants (Status() "Unknown" is unreachable)',
             'system level (event loop continues after a decode error, order of the jobs behind a bad entry, acknowledgement): controlled-scheduler family persist']),
     'C13': dict(module='Properties.C13', file='Properties/C13.v', slices=['job', 'wake'],
-                families=['dist', 'recover', 'multiq'],
+                families=['dist', 'recover', 'multiq', 'bindwindow'],
                 quick_episodes=500, thorough_episodes=6000,
                 rule=SLICE_JOB_RULE + '; family dist: 1..3 consumers with concurrency 1..3 on one recording adapter (plain / priority), producers that are not consumers, binding before or after '
                      'items exist, notifications delivered by a goroutine of their own (delay and reordering are schedule choices); monitors: every item executed by exactly one consumer, the '
                      'adapter drained at rest, the consumers\' Submitted counters add up to the notifications delivered; the wake-up projection (coq/SliceWake.v) is replayed for single-consumer episodes',
                 trusted_base=TB_CONC + ['the recording adapter stands for any user adapter (specification object)'],
                 assumptions=['the adapter hands each pending item to one DequeueWithAckId caller and notifies every subscriber once per accepted item (adapter contract)',
-                             'the wake-up model is replayed for single-consumer episodes only; with several consumers the drain is decided by the monitors']),
+                             'each consumer\'s wake-up protocol is replayed separately against the shared pending count; that the consumers together drain the adapter follows per consumer (a parked consumer with items pending below its limit has a notification buffered or owed) and is also monitored']),
     'C14': dict(module='Properties.C14', file='Properties/C14.v', slices=['life'],
                 families=['lifeseq', 'lifecycle', 'pool'],
                 quick_episodes=700, thorough_episodes=15000,
